@@ -7,19 +7,17 @@ Import ListNotations.
 
 (* ---------- the source, read back ---------- *)
 
-(* where a stale generation ends: followStep at its top, followCheckSome and followHandleCommand right
-   after s.mu is taken; NOT between followCheckSome's return and the first caught-up test, and NOT
-   between followHandleCommand's return and the caught-up test of the read loop *)
+(* where a stale generation ends: followStep at its top, followCheckSome and followHandleCommand right after s.mu
+   is taken, and (proposed_fixes/C06-stale-generation-flag.diff) under s.mu before faofsz / the caught-up flag are
+   written after the AOF reply and in the read loop *)
 Lemma gen_guards_transcribed :
   cfg_of follow_step follow_check_some follow_handle_command = proved_cfg.
 Proof. vm_compute. reflexivity. Qed.
 
-(* what a stale generation would touch first in the two unguarded places *)
-Lemma stale_after_check_reaches :
-  stale_run (outside_loop (after_call "call s.followCheckSome" follow_step)) = SEffect "s.faofsz = int(aofSize)".
-Proof. vm_compute. reflexivity. Qed.
-Lemma stale_after_command_reaches :
-  stale_run (after_call "call s.followHandleCommand" follow_step) = SEffect "s.faofsz = aofsz".
+(* in the caught-up block of the read loop the stale attempt returns under the generation test; nothing of the block
+   that touches the server is reached by it *)
+Lemma stale_in_loop_block_reaches_nothing :
+  stale_run (after_plain_unlock (after_call "call s.followHandleCommand" follow_step)) = SFallsOff.
 Proof. vm_compute. reflexivity. Qed.
 
 (* follow() ends a generation on errNoLongerFollowing only *)
@@ -149,8 +147,9 @@ Section P.
     split; [rewrite I1; exact Hd | rewrite I2; reflexivity].
   Qed.
 
-  (* the caught-up flag: a stale attempt can clear it (GClear), it cannot raise it if the two places after the
-     network round trips are guarded as well - in the source as it is they are not (Props: c06g_stale_flag_refuted) *)
+  (* the caught-up flag: a stale attempt can clear it (GClear); it cannot raise it if the two places after the
+     network round trips are guarded as well (they were not before proposed_fixes/C06-stale-generation-flag.diff:
+     Props c06g_stale_flag_pinned_refuted) *)
   Lemma stale_flag_partial : forall cfg aof ops (w : world) e i a,
     c_aofg cfg = true -> c_flagg cfg = true ->
     actor e = Some i -> nth_error (w_atts st w) i = Some a -> a_gen a <> w_cur st w ->
@@ -175,7 +174,27 @@ Section P.
     - destruct (a_ph a); intro H; exact H.
   Qed.
 
-  (* with the source as it is: every step of a stale attempt except the two unguarded ones *)
+  (* the source as it is (all five places guarded): no step of a stale attempt raises the flag *)
+  Lemma stale_flag_inert : forall aof ops (w : world) e i a,
+    actor e = Some i -> nth_error (w_atts st w) i = Some a -> a_gen a <> w_cur st w ->
+    w_cup st (gstep proved_cfg aof ops w e) = true -> w_cup st w = true.
+  Proof. intros aof ops w e i a. apply stale_flag_partial; reflexivity. Qed.
+
+  Lemma stale_flag_inert_run : forall aof ops es (w : world),
+    Forall (stale_ev (gens st w) (w_cur st w)) es ->
+    w_cup st (grun proved_cfg aof ops w es) = true -> w_cup st w = true.
+  Proof.
+    intros aof ops es. induction es as [|e es IH]; intros w HF H; [exact H|].
+    inversion HF as [|? ? He HF']; subst. destruct He as (i & g & Ha & Hg & Hne).
+    unfold gens in Hg. rewrite nth_error_map in Hg.
+    destruct (nth_error (w_atts st w) i) as [a|] eqn:Hn; cbn in Hg; [|discriminate]. inversion Hg; subst.
+    destruct (actor_keeps_gens proved_cfg aof ops w e i Ha) as [HG Hcur].
+    change (grun proved_cfg aof ops w (e :: es)) with (grun proved_cfg aof ops (gstep proved_cfg aof ops w e) es) in H.
+    specialize (IH (gstep proved_cfg aof ops w e)). rewrite HG, Hcur in IH.
+    eapply stale_flag_inert; eauto.
+  Qed.
+
+  (* whatever the configuration: every step of a stale attempt except GAof / GFlag *)
   Lemma stale_flag_other_steps : forall cfg aof ops (w : world) e i a,
     actor e = Some i -> nth_error (w_atts st w) i = Some a -> a_gen a <> w_cur st w ->
     (forall l, e <> GAof i l) -> e <> GFlag i ->
